@@ -20,6 +20,7 @@ import (
 	"runtime"
 	"sort"
 	"strings"
+	"sync"
 	"time"
 
 	"github.com/martian-lang/martian/martian/core"
@@ -96,6 +97,10 @@ type TAOpts struct {
 	// job is pending and the scheduler has nothing left to do without it (directed schedules: "the
 	// producer of the condition finishes last").  "" = off (the PRNG schedule is unchanged).
 	SlowJobs string
+	// Cluster: the job manager has a queue query (cluster mode): every job gets a _jobid, mrp queries
+	// the queue at every pass, and a job with fault kind "lost" vanishes without leaving any file
+	// (killed in the scheduler's queue / node lost) — only the queue query can notice.
+	Cluster bool
 }
 
 type TARun struct {
@@ -124,6 +129,7 @@ type TARun struct {
 	ppCrashed          bool
 	stalls             int
 	slowQuiet          int
+	queueMu            sync.Mutex
 }
 
 type stderrLogger struct{}
@@ -158,6 +164,16 @@ func (r *TARun) newRuntime() error {
 	opts.FullStageReset = r.Opts.FullReset
 	r.jm = &core.VerifJobManager{}
 	r.jm.OnExec = r.onExec
+	if r.Opts.Cluster {
+		opts.JobMode = "verifcluster"
+		qjm := &core.VerifQueueJobManager{VerifJobManager: r.jm, OnCheckQueue: r.checkQueue}
+		rt, err := core.VerifNewQueueRuntime(&opts, qjm)
+		if err != nil {
+			return err
+		}
+		r.rt = rt
+		return nil
+	}
 	rt, err := core.VerifNewRuntime(&opts, r.jm)
 	if err != nil {
 		return err
@@ -236,7 +252,13 @@ func (r *TARun) onExec(j *core.VerifJob) {
 			t.emit("%s", l)
 		}
 	}
+	if r.Opts.Cluster && j.Metadata != nil {
+		// what RemoteJobManager does after a successful submission
+		j.Metadata.WriteRaw(core.JobId, job.Key)
+	}
+	r.queueMu.Lock()
 	r.Pending = append(r.Pending, job)
+	r.queueMu.Unlock()
 	r.Jobs = append(r.Jobs, job)
 	if r.LaunchHook != nil {
 		r.LaunchHook(job)
@@ -314,7 +336,26 @@ func (r *TARun) jobMeta(job *TAJob) *core.Metadata {
 		job.FilesPath, path.Dir(job.JournalFile), runType)
 }
 
+// checkQueue: the fake scheduler's answer to a queue query — the ids of the jobs still in flight.
+func (r *TARun) checkQueue(ids []string) []string {
+	r.queueMu.Lock()
+	defer r.queueMu.Unlock()
+	alive := map[string]bool{}
+	for _, p := range r.Pending {
+		alive[p.Key] = true
+	}
+	var out []string
+	for _, id := range ids {
+		if alive[id] {
+			out = append(out, id)
+		}
+	}
+	return out
+}
+
 func (r *TARun) removePending(job *TAJob) {
+	r.queueMu.Lock()
+	defer r.queueMu.Unlock()
 	for i, p := range r.Pending {
 		if p == job {
 			r.Pending = append(r.Pending[:i], r.Pending[i+1:]...)
@@ -398,7 +439,18 @@ func (r *TARun) finishJob(job *TAJob) {
 	if job.Done {
 		return
 	}
-	r.startJob(job)
+	lostQueued := false
+	if !job.Started {
+		for _, f := range r.Opts.Faults {
+			// a job lost while still in the scheduler's queue never starts (no _log)
+			if f.JobKey == job.Key && f.Kind == "lost" && (f.Repeat || f.used == 0) && len(job.Key)%2 == 0 {
+				lostQueued = true
+			}
+		}
+	}
+	if !lostQueued {
+		r.startJob(job)
+	}
 	job.Done = true
 	r.removePending(job)
 	md := r.jobMeta(job)
@@ -408,6 +460,9 @@ func (r *TARun) finishJob(job *TAJob) {
 		kind = fault.Kind
 	}
 	switch kind {
+	case "lost":
+		// the job vanishes: no _errors, no journal entry, its process (if any) is gone
+		job.Outcome = "fail:lost"
 	case "errors":
 		md.WriteRaw(core.Errors, "injected failure in "+job.Key)
 		md.UpdateJournal(core.Errors)
@@ -449,6 +504,8 @@ func (r *TARun) finishJob(job *TAJob) {
 	ev.Outs = job.Outs
 	if t := r.Tracer; t != nil {
 		switch {
+		case job.Outcome == "fail:lost":
+			t.emit("killed %s", t.jobRef(job))
 		case job.Outcome == "fail:exit":
 			t.emit("silentfail %s", t.jobRef(job))
 			if !r.insideStep && r.ps != nil {
@@ -727,7 +784,13 @@ func (r *TARun) stepOnce() (done bool, progress bool) {
 	r.ps.RefreshState(ctx)
 	if r.Tracer != nil {
 		r.Tracer.emit("refresh")
-		r.Tracer.observe("R", nil)
+		if r.Opts.Cluster {
+			// in cluster mode RefreshState itself writes files (endRefresh: _errors for a job the queue
+			// query no longer knows): what became visible is reported as `W` (found on disk or written by mrp)
+			r.Tracer.observe("W", nil)
+		} else {
+			r.Tracer.observe("R", nil)
+		}
 	}
 	state := r.ps.GetState(ctx)
 	switch state {
@@ -770,7 +833,16 @@ func (r *TARun) stepOnce() (done bool, progress bool) {
 		r.Final = "failed"
 		return true, false
 	}
+	if r.Opts.Cluster {
+		r.ps.VerifAllowQueueCheck()
+	}
 	r.ps.CheckHeartbeats(ctx)
+	if r.Opts.Cluster {
+		// the query runs in a goroutine of its own: wait for its verdict (barrier, not a sleep)
+		for i := 0; i < 2000 && !r.ps.VerifQueueCheckIdle(); i++ {
+			time.Sleep(500 * time.Microsecond)
+		}
+	}
 	r.insideStep = true
 	p := r.ps.StepNodes(ctx)
 	r.insideStep = false
